@@ -324,6 +324,47 @@ def for_loops(root):
     return out
 
 
+def paths_to(root, pred):
+    """For every node satisfying pred: (node, conds) where conds is the list of branch
+    decisions on the tree path from root: ('if', cond_node, True|False),
+    ('arm', match_node, arm), ('loop', loop_node)."""
+    out = []
+
+    def rec(n, conds):
+        if pred(n):
+            out.append((n, list(conds)))
+        k = n.get("k")
+        if k == "If":
+            rec(n["c"], conds)
+            rec(n["th"], conds + [("if", n["c"], True)])
+            if "el" in n:
+                rec(n["el"], conds + [("if", n["c"], False)])
+            return
+        if k == "Match":
+            rec(n["e"], conds)
+            for arm in n["arms"]:
+                c2 = conds + [("arm", n, arm)]
+                if "g" in arm:
+                    rec(arm["g"], c2)
+                    c2 = c2 + [("if", arm["g"], True)]
+                rec(arm["b"], c2)
+            return
+        if k == "Logical":
+            rec(n["l"], conds)
+            rec(n["r"], conds + [("if", n["l"], n["o"] == "And")])
+            return
+        if k == "LetStmt" and "els" in n:
+            if "i" in n:
+                rec(n["i"], conds)
+            rec(n["els"], conds + [("letelse", n, False)])
+            return
+        for c in children(n):
+            rec(c, conds)
+
+    rec(root, [])
+    return out
+
+
 # ---------------------------------------------------------------- patterns
 
 WILD = "*"
@@ -447,7 +488,7 @@ def pat_irrefutable_deep(p):
     return False
 
 
-def find_matches(node, facts=None, adt_suffix=None):
+def find_matches(node, facts=None, adt_suffix=None, deep=False):
     """All `match` nodes (incl. if-let lowered forms are `Let`, not included) whose arms
     mention variants of the given ADT."""
     out = []
@@ -460,7 +501,29 @@ def find_matches(node, facts=None, adt_suffix=None):
                 if any(q.get("k") == "Variant" and q["adt"].endswith(adt_suffix) for q in pat_alternatives(arm["p"])):
                     out.append(n)
                     break
+            else:
+                if deep and any(pat_mentions_adt(arm["p"], adt_suffix) for arm in n["arms"]):
+                    out.append(n)
     return out
+
+
+def pat_mentions_adt(p, adt_suffix):
+    k = p.get("k")
+    if k == "Variant":
+        if p["adt"].endswith(adt_suffix):
+            return True
+        return any(pat_mentions_adt(s["p"], adt_suffix) for s in p["sub"])
+    if k == "Leaf":
+        return any(pat_mentions_adt(s["p"], adt_suffix) for s in p["sub"])
+    if k in ("Deref", "Guard"):
+        return pat_mentions_adt(p["p"], adt_suffix)
+    if k == "Bind" and "sub" in p:
+        return pat_mentions_adt(p["sub"], adt_suffix)
+    if k == "Or":
+        return any(pat_mentions_adt(q, adt_suffix) for q in p["ps"])
+    if k == "Slice":
+        return any(pat_mentions_adt(q, adt_suffix) for q in p["pre"] + p["suf"] + ([p["mid"]] if "mid" in p else []))
+    return False
 
 
 # ---------------------------------------------------------------- rendering
